@@ -100,6 +100,7 @@ int main(int argc, char **argv) {
             Json line = Json::obj();
             line.set("hash", r["hash"]).set("ph", hex64(fnv1a_str(pd))).set("nt", nt ? 1 : 0);
             if (r["viol"].size()) line.set("viol", r["viol"]);
+            if (plan.has("cells")) line.set("cells", plan["cells"]);
             if (r.has("sh")) line.set("sh", r["sh"]).set("sw", r["switches"]);
             if (r["tsan"].num() > 0) line.set("tsan", r["tsan"]);
             if ((int) i < nsamples) line.set("sample", plan);
